@@ -191,6 +191,16 @@ def join_sweep(tier):
     return out
 
 
+def fenced_loss(tier):
+    """auto_fence: an instance is lost (and ISOLATED by the others) while processes run on it."""
+    out = []
+    for what, at in (('app:d1', 40), ('app:d1', 31), ('unm:u1', 40)):
+        for sched in ('canonical', 7, 8):
+            out.append({'strategy': 'USER', 'sched': sched, 'steps': 120, 'late': {}, 'auto_fence': True,
+                        'events': [[20, 'start', 'n3', what], [22, 'start', 'n2', 'app:d2'], [at, 'crash', 'n3']]})
+    return out
+
+
 def run_scenarios(scs):
     traces = []
     for i, sc in enumerate(scs):
@@ -285,7 +295,7 @@ def main(tier, seed, replay=None):
         return v.finish()
     rnd = random.Random(seed * 7919 + 12)
     model_check(v, tier)
-    scs = join_sweep(tier) + [gen_random(rnd, k) for k in range(80 if tier == 'quick' else 2000)]
+    scs = join_sweep(tier) + fenced_loss(tier) + [gen_random(rnd, k) for k in range(80 if tier == 'quick' else 2000)]
     for lo in range(0, len(scs), 300):          # chunk by chunk: bounded memory in thorough runs
         part = scs[lo:lo + 300]
         judge(v, run_scenarios(part), part)
